@@ -229,20 +229,10 @@ def _definition_table(prog: Program, ctx: Ctx, rule: str = "R5") -> None:
         return it._str(e) if isinstance(e, Obj) else (e if isinstance(e, str) else None)
 
     def visit(srcs: list[str]) -> dict | str:
-        klass = Obj(prog.cls(f"{M}.Class"), {"name": "K", "path": "m.K", "members": {}, "parent": None, "overloads": collections.defaultdict(list),
-                                             "imports_future_annotations": False}, label="m.K")
-        mod = Obj(prog.cls(f"{M}.Module"), {"name": "m", "path": "m", "members": {"K": klass}, "parent": None, "imports_future_annotations": False,
-                                                "_filepath": PurePosixPath("/s/m.py"), "relative_filepath": PurePosixPath("m.py")}, label="m")
-        mod.attrs["module"] = mod
-        klass.attrs["module"] = mod
-        klass.attrs["parent"] = mod
-
-        def set_member(n_, v_):  # what SetMembersMixin.set_member does for a plain object (C16 decides the real one)
-            klass.attrs["members"][n_] = v_
-            v_.attrs["parent"] = klass
-
-        klass.attrs["set_member"] = Native(set_member)
-        klass.attrs["get_member"] = Native(lambda n_: klass.attrs["members"][n_])
+        # the scope the definitions are visited in: a class in a module, built by the models' own constructors (whatever state they keep is there)
+        klass = it._construct(prog.cls(f"{M}.Class"), ["K"], {})
+        mod = it._construct(prog.cls(f"{M}.Module"), ["m"], {"filepath": PurePosixPath("/s/m.py")})
+        it.call(prog.lookup_method(mod.cls, "set_member")[0], mod, "K", klass)
         vis = Obj(prog.cls("_griffe.agents.visitor.Visitor"), {
             "current": klass, "type_guarded": False, "extensions": Obj(None, {"call": Native(lambda *a, **k: None)}), "docstring_parser": None,
             "docstring_options": {}, "lines_collection": None, "modules_collection": None, "filepath": "m.py", "code": ""}, label="visitor")
